@@ -1,6 +1,9 @@
 """C20 — a create option means the same via flag, configuration file or keyword.
 Full product of option subsets x version x align x out; three routes; all CLI
-argument orders for small subsets."""
+argument orders for small subsets.  Side catalogues: hostile working
+directories (env), content-root names, special option values (values), every
+long option name as a configuration key (names), int / str forms of the
+meta_version keyword per creator class (kwforms)."""
 import itertools
 import os
 
@@ -28,6 +31,52 @@ CONTENT_NAMES = ["Live: Vol 2", "http:", "udp:tracker", "c:",
 SPECIAL_MID = ["\x0b", "\x0c", "\x1c", "\x1d", "\x1e", "\x85", "\u2028",
                "\u2029", "=", ":", ";", "#", " ; ", " # ", "'", '"', ",",
                "\t", "  ", "[x]", "--private", "\\n", "\u00e9"]
+# WHOLE values (the complete option value, not a character inside it), by
+# class: words that a configuration reader might take for a boolean / a number
+# / "nothing"; values with the interpolation characters of configparser;
+# values beginning with '@' (argparse's arguments-file prefix).  `@notes`
+# names a file that exists in the working directory, `@x` one that does not.
+# Each entry: (class, value as text option, value as one entry of a list
+# option).
+WHOLE_VALUES = (
+    [("bool-word", w, w) for w in
+     ("true", "True", "false", "FALSE", "yes", "no", "on", "off", "1", "0",
+      "none", "None", "null")] +
+    [("percent", "100% legal", "http://h/a%20b"),
+     ("percent", "50%", "http://h/a%"),
+     ("percent", "a%%b", "http://h/a%%b"),
+     ("percent", "%(x)s", "http://h/%(x)s"),
+     ("percent", "${x}", "http://h/${x}")] +
+    [("at-prefix", "@x", "@x"),
+     ("at-prefix", "@notes", "@notes"),
+     ("at-prefix", "@alice thanks", "@http://h/x")])
+# values of `out` (relative to the working directory), same classes
+OUT_VALUES = [("at-prefix", "@o.torrent"), ("at-prefix", "@notes"),
+              ("bool-word", "true"), ("bool-word", "False"),
+              ("percent", "a%20b.torrent"), ("percent", "100%.torrent"),
+              ("percent", "%(x)s.torrent"), ("plain", "o.torrent")]
+NOTES_FILE = ("notes", "planted text\n--private\n")
+# dest of the create sub-parser -> documented option name
+DOC_DEST = {"announce": "announce", "url_list": "web-seed",
+            "httpseeds": "http-seed", "private": "private",
+            "source": "source", "comment": "comment",
+            "piece_length": "piece-length"}
+# long option names of the create sub-parser as read from torrentfile/cli.py
+# (name -> (dest, kind)); used for the documented names and when the live
+# parser cannot be introspected.  `config` / `config-path` select the
+# configuration route itself and are not enumerated as keys.
+STATIC_LONG = {
+    "announce": ("announce", "list"), "tracker": ("announce", "list"),
+    "private": ("private", "flag"), "source": ("source", "text"),
+    "magnet": ("magnet", "flag"), "comment": ("comment", "text"),
+    "out": ("outfile", "text"), "prog": ("progress", "text"),
+    "progress": ("progress", "text"),
+    "meta-version": ("meta_version", "text"),
+    "piece-length": ("piece_length", "text"),
+    "web-seed": ("url_list", "list"), "http-seed": ("httpseeds", "list"),
+    "align": ("align", "flag"),
+}
+ROUTE_SELECTORS = ("config", "config-path", "help")
 LISTY = {"announce", "web-seed", "http-seed"}
 FLAG = {"announce": "--announce", "web-seed": "--web-seed",
         "http-seed": "--http-seed", "private": "--private",
@@ -121,6 +170,19 @@ def normalise(raw):
     return m
 
 
+def _clean(sandbox, keep):
+    """Remove what a case left in its sandbox (everything but `keep`)."""
+    import shutil
+    for n in os.listdir(sandbox):
+        p = os.path.join(sandbox, n)
+        if n in keep:
+            continue
+        if os.path.isdir(p) and not os.path.islink(p):
+            shutil.rmtree(p, ignore_errors=True)
+        else:
+            os.remove(p)
+
+
 class OptionsCheck:
     id = "C20"
 
@@ -145,6 +207,35 @@ class OptionsCheck:
             "environment group: the routes compared in a working directory "
             "that was removed and in one that refuses new files",
             "one two-file payload; values per option from a small alphabet",
+            "value group (one option at a time, routes keyword / flag / "
+            "config styles A and B): 23 characters or words inside a value; "
+            "whole values of three classes - bool-word (true True false "
+            "FALSE yes no on off 1 0 none None null), percent (`100% legal`, "
+            "`50%`, `a%%b`, `%(x)s`, `${x}`; URL forms for the list options) "
+            "and at-prefix (`@x`, `@notes` with a file `notes` present in "
+            "the working directory, `@alice thanks` / `@http://h/x`) - for "
+            "comment and source and, for announce / web-seed / http-seed, as "
+            "the only entry, the first and the last of two; the same classes "
+            "as relative values of `out`.  The configuration file carries "
+            "the value literally (`key = value`), as the documentation shows "
+            "it; a written file that is not a bencoded dictionary is a "
+            "violation (`metafile-not-bencode`), not a machinery error",
+            "option-name group: every long option name / alias of the create "
+            "sub-parser, read from the live argparse parser of the code "
+            "under test (united with the names read from cli.py: announce "
+            "tracker private source magnet comment out prog progress "
+            "meta-version piece-length web-seed http-seed align; `config` "
+            "and `config-path` select the route and are not keys), used as "
+            "the only key of the configuration file and compared with the "
+            "flag of the same spelling; for names that are not documented "
+            "options (magnet, prog, progress) only the metafile is compared",
+            "keyword-form group: meta_version as int (documented type) and "
+            "as str (what the command passes) for TorrentFile, TorrentFileV2, "
+            "TorrentFileHybrid, TorrentAssembler, without options and with "
+            "all options: the two forms must give the same metafile; for the "
+            "class the command picks both must equal the flag route and "
+            "have the version structure; a class raising for the str form "
+            "only is not judged",
             "CLI orders: every permutation and every content-path position "
             "for subsets of <= 3 flags; canonical, reversed and rotated "
             "orders for larger subsets",
@@ -156,7 +247,14 @@ class OptionsCheck:
             "through every enumerated argument order; state = one option "
             "combination; transition = one create; oracle = equality of the "
             "decoded metafiles minus creation date + documented field "
-            "placement")
+            "placement; plus three complete side catalogues judged by the "
+            "same oracle: special values (characters inside a value; whole "
+            "values that look like booleans / numbers / nothing, contain `%` "
+            "or begin with `@`) x option (comment, source, list options, "
+            "out) x route; every long option name of the create sub-parser "
+            "as a configuration key against the flag of the same spelling; "
+            "int and str forms of the meta_version keyword x creator class "
+            "against each other and against the flag route")
 
     def combos(self):
         for vals in itertools.product(*[OPTION_VALUES[o] for o in OPT_ORDER]):
@@ -175,7 +273,12 @@ class OptionsCheck:
         for version in ("1", "2", "3"):
             gs.append({"kind": "env", "version": version, "seed": seed,
                        "tier": tier})
-            gs.append({"kind": "values", "version": version, "seed": seed,
+            for part in ("mid", "whole", "out"):
+                gs.append({"kind": "values", "version": version,
+                           "seed": seed, "tier": tier, "part": part})
+            gs.append({"kind": "names", "version": version, "seed": seed,
+                       "tier": tier})
+            gs.append({"kind": "kwforms", "version": version, "seed": seed,
                        "tier": tier})
             gs.append({"kind": "content-names", "version": version,
                        "seed": seed, "tier": tier})
@@ -185,11 +288,21 @@ class OptionsCheck:
     def run_route(self, route, opts, version, align, outform, root, sandbox,
                   argv_override=None, style="A"):
         n = len(os.listdir(sandbox))
+        while os.path.lexists(os.path.join(sandbox, f"out{n}")):
+            n += 1
         outdir = os.path.join(sandbox, f"out{n}")
         os.mkdir(outdir)
         if outform == "file":
             outarg = os.path.join(outdir, "x.torrent")
             expect = outarg
+        elif isinstance(outform, (list, tuple)):
+            # ("rel", value): the value of `out` as given, relative to the
+            # working directory (the sandbox); a file left there by another
+            # route is removed first
+            outarg = outform[1]
+            expect = os.path.join(sandbox, outarg)
+            if os.path.lexists(expect) and outarg != NOTES_FILE[0]:
+                os.remove(expect)
         elif outform == "inside":
             # the output file lies inside the content directory (a private
             # copy of the payload, so that routes do not see each other's
@@ -319,7 +432,14 @@ class OptionsCheck:
         if not os.path.isfile(expect):
             return ("no-metafile-at-out-path", None)
         with open(expect, "rb") as f:
-            return ("ok", f.read())
+            raw = f.read()
+        try:
+            normalise(raw)
+        except (ValueError, TypeError, AttributeError) as e:
+            # what was written is not a bencoded dictionary: a verdict about
+            # the code under test, not a failure of the machinery
+            return ("metafile-not-bencode", raw[:200] + repr(e).encode())
+        return ("ok", raw)
 
     def cli_orders(self, opts, version, align, root):
         ch = chunks_of(opts, version, align)
@@ -522,62 +642,331 @@ class OptionsCheck:
             shutil.rmtree(parent, ignore_errors=True)
         return res
 
+    def value_cases(self, part):
+        """(option, value, class, shown) of the special-value catalogue."""
+        text_opts = ("comment", "source")
+        value_opts = ("announce", "web-seed", "http-seed") + text_opts
+        if part in (None, "mid"):
+            for o in value_opts:
+                for mid in SPECIAL_MID:
+                    if o in LISTY:
+                        val = [f"http://h/a{mid}b", "http://second/"]
+                    else:
+                        val = f"x{mid}y"
+                    yield o, val, "special-value", repr(mid)
+        if part in (None, "whole"):
+            for o in value_opts:
+                for cls, text, entry in WHOLE_VALUES:
+                    if o in LISTY:
+                        # as the only entry (one-line form in style B), as
+                        # the first and as the last of two
+                        for val in ([entry], [entry, "http://second/"],
+                                    ["http://first/", entry]):
+                            yield o, val, cls, repr(val)
+                    else:
+                        yield o, text, cls, repr(text)
+        if part in (None, "out"):
+            for cls, val in OUT_VALUES:
+                yield "out", val, cls, repr(val)
+
     def run_values(self, g, res, only=None):
-        """One option at a time with values whose characters mean something to
-        one of the routes (line-boundary characters other than LF, `=`, `:`,
-        `;`, `#`, quotes, option-like and boolean-like words)."""
-        import shutil
+        """One option at a time with values that mean something to one of the
+        routes: characters inside the value (line-boundary characters other
+        than LF, `=`, `:`, `;`, `#`, quotes, option-like words) and whole
+        values (boolean-like / number-like / null-like words, `%` sequences,
+        a leading `@`), for the text options, as entries of the list options
+        and as the value of `out`."""
         seed, version = g["seed"], g["version"]
         sandbox = world.fresh_dir()
         root = world.materialize(payload(seed), os.path.join(sandbox, "p"))
-        for o in ("announce", "web-seed", "http-seed", "comment", "source"):
-            for mid in SPECIAL_MID:
-                if o in LISTY:
-                    val = [f"http://h/a{mid}b", "http://second/"]
-                else:
-                    val = f"x{mid}y"
-                opts = {k: None for k in OPT_ORDER}
+        with open(os.path.join(sandbox, NOTES_FILE[0]), "w") as f:
+            f.write(NOTES_FILE[1])
+        for o, val, cls, shown in self.value_cases(g.get("part")):
+            opts = {k: None for k in OPT_ORDER}
+            outform = "file"
+            if o == "out":
+                outform = ["rel", val]
+                opts["comment"] = "c"
+            else:
                 opts[o] = val
-                case = {"kind": "values", "opts": opts, "version": version,
-                        "align": False, "out": "file", "seed": seed}
-                if only is not None and only["opts"] != opts:
+            case = {"kind": "values", "opts": opts, "version": version,
+                    "align": False, "out": outform, "seed": seed}
+            if only is not None and (
+                    only["opts"] != opts or
+                    (only.get("out") or "file") != outform):
+                continue
+            check = expected_fields(opts, version, False)
+            outs = {}
+            for route in ("kw", "cli", "config", "config-B"):
+                outs[route] = self.run_route(
+                    route.split("-")[0], opts, version, False, outform,
+                    root, sandbox,
+                    style=route[-1] if "-" in route else "A")
+                res.transitions += 1
+                res.evals += 1
+                res.validated += 1
+            res.states += 1
+            ref = outs["kw"]
+            for route, (st, raw) in outs.items():
+                probs = []
+                if st != "ok":
+                    probs.append(st)
+                else:
+                    probs += check(normalise(raw))
+                    if ref[0] == "ok" and normalise(raw) != \
+                            normalise(ref[1]):
+                        probs.append("differs-from-keyword-route")
+                res.outcomes["values:" + (probs[0] if probs else
+                                          "ok")] += 1
+                for pr in probs:
+                    res.violation(
+                        f"C20|{route}|{pr}|v{version}|{cls}:{o}",
+                        dict(case, route=route), shown)
+            _clean(sandbox, keep=("p", NOTES_FILE[0]))
+        return res
+
+    # option names -------------------------------------------------------
+    def long_options(self):
+        """Every long option name the create sub-parser of the code under
+        test accepts: {name: (dest, kind, choices)}, read from the live
+        parser (so that a new alias is enumerated without touching this
+        file), united with the names read from cli.py."""
+        import argparse
+        names = {k: (d, kind, None) for k, (d, kind) in STATIC_LONG.items()}
+        source = "static"
+
+        class _Got(BaseException):
+            pass
+
+        real = argparse.ArgumentParser.parse_args
+
+        def grab(self_, *a, **k):
+            raise _Got(self_)
+        try:
+            argparse.ArgumentParser.parse_args = grab
+            try:
+                with tf.quiet():
+                    tf.cli.execute(["create", "x"])
+            except _Got as got:
+                parser = got.args[0]
+                sub = [a for a in parser._actions
+                       if isinstance(a, argparse._SubParsersAction)]
+                for act in sub[0].choices["create"]._actions:
+                    for s in act.option_strings:
+                        if not s.startswith("--"):
+                            continue
+                        if act.nargs == 0:
+                            kind = "flag"
+                        elif act.nargs in ("+", "*"):
+                            kind = "list"
+                        else:
+                            kind = "text"
+                        names[s[2:]] = (act.dest, kind, list(act.choices)
+                                        if act.choices else None)
+                source = "live parser"
+            except Exception:  # noqa
+                pass
+        finally:
+            argparse.ArgumentParser.parse_args = real
+        for n in ROUTE_SELECTORS:
+            names.pop(n, None)
+        return names, source
+
+    def run_names(self, g, res, only=None):
+        """Every long option name / alias of the create sub-parser as a
+        configuration key (the documentation: "file can use the same long
+        options names used for the command line"), compared with the flag of
+        the same spelling; nothing else is in the file, the remaining
+        arguments are the same on both command lines."""
+        seed, version = g["seed"], g["version"]
+        sandbox = world.fresh_dir()
+        root = world.materialize(payload(seed), os.path.join(sandbox, "p"))
+        names, source = self.long_options()
+        res.notes.add("option names from: " + source)
+        res.extra["max_long_option_names"] = len(names)
+        for name in sorted(names):
+            dest, kind, choices = names[name]
+            if kind == "flag":
+                values = [True]
+            elif kind == "list":
+                values = [["http://t1/announce"],
+                          ["http://t1/announce", "http://t2/announce"]]
+            elif dest == "meta_version":
+                values = [version]
+            elif dest == "piece_length":
+                values = ["15", "32768"]
+            elif dest == "progress":
+                values = ["0"]
+            elif dest == "outfile":
+                values = ["<OUT>"]
+            elif choices:
+                values = [choices[0]]
+            else:
+                values = ["text value"]
+            for val in values:
+                case = {"kind": "names", "name": name, "value": val,
+                        "version": version, "seed": seed}
+                if only is not None and (only["name"] != name or
+                                         only["value"] != val):
                     continue
-                check = expected_fields(opts, version, False)
+                opts = {k: None for k in OPT_ORDER}
+                if dest in DOC_DEST:
+                    opts[DOC_DEST[dest]] = val
+                check = expected_fields(opts, version, dest == "align")
                 outs = {}
-                for route in ("kw", "cli", "config", "config-B"):
-                    outs[route] = self.run_route(
-                        route.split("-")[0], opts, version, False, "file",
-                        root, sandbox,
-                        style=route[-1] if "-" in route else "A")
+                for route in ("flag", "config"):
+                    n = len(os.listdir(sandbox))
+                    out = os.path.join(sandbox, f"n{n}.torrent")
+                    v = out if val == "<OUT>" else val
+                    common = []
+                    if dest != "meta_version":
+                        common += ["--meta-version", version]
+                    if dest != "progress":
+                        common += ["--prog", "0"]
+                    if dest != "outfile":
+                        common += ["-o", out]
+                    if route == "flag":
+                        argv = ["create", root] + common + ["--" + name]
+                        if kind == "list":
+                            argv += list(v)
+                        elif kind != "flag":
+                            argv.append(v)
+                    else:
+                        cfg = os.path.join(sandbox, f"n{n}.ini")
+                        with open(cfg, "w") as f:
+                            if kind == "list":
+                                f.write("[config]\n" + name + " =\n" + "".join(
+                                    "    " + x + "\n" for x in v))
+                            elif kind == "flag":
+                                f.write(f"[config]\n{name} = true\n")
+                            else:
+                                f.write(f"[config]\n{name} = {v}\n")
+                        argv = ["create", "--config", "--config-path", cfg,
+                                root] + common
+                    tf.reset_process_state()
+                    cwd = os.getcwd()
+                    os.chdir(sandbox)
+                    try:
+                        tf.execute(argv)
+                        with open(out, "rb") as f:
+                            outs[route] = ("ok", normalise(f.read()))
+                    except BaseException as e:  # noqa
+                        outs[route] = ("raised:" + type(e).__name__,
+                                       str(e)[:100])
+                    finally:
+                        os.chdir(cwd)
                     res.transitions += 1
                     res.evals += 1
                     res.validated += 1
                 res.states += 1
-                ref = outs["kw"]
-                for route, (st, raw) in outs.items():
-                    probs = []
-                    if st != "ok":
-                        probs.append(st)
-                    else:
-                        probs += check(normalise(raw))
-                        if ref[0] == "ok" and normalise(raw) != \
-                                normalise(ref[1]):
-                            probs.append("differs-from-keyword-route")
-                    res.outcomes["values:" + (probs[0] if probs else
-                                              "ok")] += 1
-                    for pr in probs:
-                        res.violation(
-                            f"C20|{route}|{pr}|v{version}|special-value:{o}",
-                            dict(case, route=route), repr(mid))
-                for n in os.listdir(sandbox):
-                    if n.startswith("out"):
-                        shutil.rmtree(os.path.join(sandbox, n),
-                                      ignore_errors=True)
+                probs = []
+                fst, fm = outs["flag"]
+                cst, cm = outs["config"]
+                documented = dest in DOC_DEST or dest in (
+                    "meta_version", "outfile", "align")
+                if documented:
+                    # a documented option under any of its spellings must
+                    # work and land in its field on both routes
+                    for route, (st, m) in outs.items():
+                        if st != "ok":
+                            probs.append((route, st))
+                        else:
+                            probs += [(route, p) for p in check(m)]
+                if cst != fst:
+                    probs.append(("config", "differs-from-flag-route:" + cst))
+                elif cst == "ok" and cm != fm:
+                    diff = sorted(k.decode() for k in set(cm) | set(fm)
+                                  if cm.get(k) != fm.get(k))
+                    probs.append(("config", "differs-from-flag-route:" +
+                                  "+".join(diff)))
+                res.outcomes["names:" + (probs[0][1] if probs else "ok")] += 1
+                for route, pr in probs:
+                    res.violation(
+                        f"C20|{route}|{pr}|v{version}|option-name:{name}",
+                        dict(case, route=route), (fst, cst))
+                _clean(sandbox, keep=("p",))
+        return res
+
+    def run_kwforms(self, g, res, only=None):
+        """Library route: `meta_version` in its documented type (int) and in
+        the type the command line passes (str), for every creator class."""
+        seed, version = g["seed"], g["version"]
+        sandbox = world.fresh_dir()
+        root = world.materialize(payload(seed), os.path.join(sandbox, "p"))
+        picked = "TorrentFile" if version == "1" else "TorrentAssembler"
+        all_set = {o: OPTION_VALUES[o][-1] for o in OPT_ORDER}
+        for oname, opts in (("none", {o: None for o in OPT_ORDER}),
+                            ("all", all_set)):
+            check = expected_fields(opts, version, False)
+            st, raw = self.run_route("cli", opts, version, False, "file",
+                                     root, sandbox)
+            res.transitions += 1
+            flag = (st, normalise(raw) if st == "ok" else None)
+            for cname in ("TorrentFile", "TorrentFileV2",
+                          "TorrentFileHybrid", "TorrentAssembler"):
+                case = {"kind": "kwforms", "version": version, "seed": seed,
+                        "opts": opts, "cls": cname}
+                if only is not None and (only["cls"] != cname or
+                                         only["opts"] != opts):
+                    continue
+                outs = {}
+                for form in ("str", "int"):
+                    mv = version if form == "str" else int(version)
+                    out = os.path.join(
+                        sandbox, f"k{len(os.listdir(sandbox))}.torrent")
+                    kw = {}
+                    for o, v in opts.items():
+                        if v is not None:
+                            kw[KW[o]] = int(v) if o == "piece-length" else (
+                                list(v) if isinstance(v, list) else v)
+                    tf.reset_process_state()
+                    try:
+                        with tf.quiet():
+                            getattr(tf.torrent, cname)(
+                                path=root, outfile=out, progress=0,
+                                meta_version=mv, **kw).write()
+                        with open(out, "rb") as f:
+                            outs[form] = ("ok", normalise(f.read()))
+                    except BaseException as e:  # noqa
+                        outs[form] = ("raised:" + type(e).__name__,
+                                      str(e)[:100])
+                    res.transitions += 1
+                    res.evals += 1
+                    res.validated += 1
+                res.states += 1
+                probs = []
+                if cname == picked:
+                    # the class the command picks for this version: both
+                    # forms mean what the flag means
+                    for form, (st, m) in outs.items():
+                        if st != "ok":
+                            probs.append((form, st))
+                            continue
+                        probs += [(form, p) for p in check(m)]
+                        if flag[0] == "ok" and m != flag[1]:
+                            probs.append((form, "differs-from-flag-route"))
+                # every class: the documented type must not mean something
+                # else than the type the command line passes
+                if outs["str"][0] == "ok" and outs["int"] != outs["str"]:
+                    probs.append(("int", "differs-from-str-form"
+                                  if outs["int"][0] == "ok"
+                                  else outs["int"][0]))
+                res.outcomes["kwforms:" + (probs[0][1] if probs
+                                           else "ok")] += 1
+                for form, pr in dict.fromkeys(probs):
+                    res.violation(
+                        f"C20|kw-{form}|{pr}|v{version}|meta_version-type:"
+                        f"{cname}", dict(case, form=form), oname)
+            _clean(sandbox, keep=("p",))
         return res
 
     def run_group(self, g):
         res = core.Result()
         seed = g["seed"]
+        if g.get("kind") == "names":
+            return self.run_names(g, res)
+        if g.get("kind") == "kwforms":
+            return self.run_kwforms(g, res)
         if g.get("kind") == "env":
             return self.run_env(g, res)
         if g.get("kind") == "values":
@@ -678,6 +1067,20 @@ class OptionsCheck:
             return [{"sig": v["sig"], "detail": v["detail"]}
                     for v in res.violations
                     if v["case"].get("route") == case.get("route")]
+        if case.get("kind") == "names":
+            res = self.run_names({"seed": case["seed"],
+                                  "version": case["version"]}, core.Result(),
+                                 only=case)
+            return [{"sig": v["sig"], "detail": v["detail"]}
+                    for v in res.violations
+                    if v["case"].get("route") == case.get("route")]
+        if case.get("kind") == "kwforms":
+            res = self.run_kwforms({"seed": case["seed"],
+                                    "version": case["version"]},
+                                   core.Result(), only=case)
+            return [{"sig": v["sig"], "detail": v["detail"]}
+                    for v in res.violations
+                    if v["case"].get("form") == case.get("form")]
         if case.get("kind") == "env":
             res = self.run_env({"seed": case["seed"],
                                 "version": case["version"]}, core.Result())
